@@ -626,6 +626,89 @@ func generateMore(suite string, seed uint64, i int, r *rng, id string, g gp) *Ca
 		}
 		return &Case{ID: id, Op: op, Arg: map[string]any{"rects": rects, "p1": []any{fs(p1.x), fs(p1.y)}, "p2": []any{fs(p2.x), fs(p2.y)},
 			"cls": cls, "timeout_ms": 4000.0}}
+	case "c20-shape": // C20: corridors at drawing scale (quarter-unit coordinates), shapes in which a piece can leave the union
+		q := func(lo, hi int) float64 { return float64(r.rangeIn(4*lo, 4*hi)) / 4 }
+		var rc [][4]float64 // l, t, r, b
+		var p1, p2 geom2
+		switch r.intn(3) {
+		case 0: // almost straight: the chord from start to end passes a reflex corner at a tiny distance on its outer side
+			h1, h2 := q(100, 600), q(100, 600)
+			x1, x2 := q(60, 200), q(210, 400) // start x, end x
+			if r.chance(1, 2) {
+				x1, x2 = x2, x1
+			}
+			cx := x1 + (x2-x1)*h1/(h1+h2) // chord x at the shared boundary
+			off := []float64{0.0625, 0.125, 0.25, 0.3, 0.5, 0.75, 1, 1.5, 2.25, 3}[r.intn(10)]
+			if x2 > x1 { // the lower rectangle starts right of the chord: the path bends around its top-left corner
+				rc = [][4]float64{{0, 0, cx + q(50, 200), h1}, {cx + off, h1, x2 + q(50, 300), h1 + h2}}
+			} else { // mirrored: the lower rectangle ends left of the chord
+				rc = [][4]float64{{cx - q(50, 200), 0, 500, h1}, {x2 - q(10, 100), h1, cx - off, h1 + h2}}
+			}
+			p1, p2 = geom2{x1, 0}, geom2{x2, h1 + h2}
+		case 1: // a passage: wide top, a side step into a tall rectangle, a narrow neck, then a shallow (or deep) wide bottom
+			tl, tw, th := q(100, 200), q(40, 80), q(30, 130)
+			sx := tl + tw - q(1, 4) // the step overlaps the top rectangle on 1..4 units
+			sw, sh := q(25, 230), q(80, 130)
+			nl := sx + q(3, 12)
+			nw, nh := q(10, 20), q(6, 14)
+			bl, bw := nl-q(80, 280), 0.0
+			bw = nl + nw + q(5, 40) - bl
+			bh := q(3, 25)
+			if r.chance(1, 5) {
+				bh = q(100, 200)
+			}
+			y1, y2, y3 := th, th+sh, th+sh+nh
+			rc = [][4]float64{{tl, 0, tl + tw, y1}, {sx, y1, sx + sw, y2}, {nl, y2, nl + nw, y3}, {bl, y3, bl + bw, y3 + bh}}
+			p1 = geom2{tl + tw*float64(r.rangeIn(4, 7))/8, 0}
+			p2 = geom2{bl + (nl-bl)*float64(r.rangeIn(1, 7))/8, y3 + bh}
+			if r.chance(1, 2) { // mirror the whole picture
+				for j := range rc {
+					rc[j][0], rc[j][2] = 600-rc[j][2], 600-rc[j][0]
+				}
+				p1.x, p2.x = 600-p1.x, 600-p2.x
+			}
+		default: // free stack at drawing scale: 2..5 rectangles, sometimes with overlaps of a few units only
+			k := r.rangeIn(2, 5)
+			y := 0.0
+			l, rr := q(50, 150), 0.0
+			rr = l + q(10, 250)
+			for j := 0; j < k; j++ {
+				h := q(4, 150)
+				if j > 0 {
+					for {
+						var nl, nr float64
+						if r.chance(1, 2) { // narrow overlap at one end of the previous range
+							ov := q(1, 12)
+							if r.chance(1, 2) {
+								nl = rr - ov
+								nr = nl + q(10, 250)
+							} else {
+								nr = l + ov
+								nl = nr - q(10, 250)
+							}
+						} else {
+							nl = q(0, 300)
+							nr = nl + q(10, 250)
+						}
+						if nr > nl && math.Min(nr, rr) > math.Max(nl, l) {
+							l, rr = nl, nr
+							break
+						}
+					}
+				}
+				rc = append(rc, [4]float64{l, y, rr, y + h})
+				y += h
+			}
+			f, z := rc[0], rc[len(rc)-1]
+			p1 = geom2{f[0] + (f[2]-f[0])*float64(r.rangeIn(1, 15))/16, f[1]}
+			p2 = geom2{z[0] + (z[2]-z[0])*float64(r.rangeIn(1, 15))/16, z[3]}
+		}
+		var rects []any
+		for _, x := range rc {
+			rects = append(rects, []any{fs(x[0]), fs(x[1]), fs(x[2]), fs(x[3])})
+		}
+		return &Case{ID: id, Op: "fitspline", Arg: map[string]any{"rects": rects, "p1": []any{fs(p1.x), fs(p1.y)}, "p2": []any{fs(p2.x), fs(p2.y)},
+			"cls": "A", "timeout_ms": 4000.0}}
 	case "solve": // C20 root finder: polynomials built from chosen roots (dyadic, so that the coefficients are exact)
 		kind := r.intn(8)
 		rt := func() float64 { return float64(r.rangeIn(-64, 64)) / 8 }
